@@ -195,3 +195,15 @@ M('c09_node_filter_inf', 'C09', (PA, "        if 0 <= Fi < max_energy_threshold:
 M('c09_log10', 'C09', (V, "* np.log(prob)\n", "* np.log10(prob)\n"))
 M('c09_posinf_capped_low', 'C09', (V, "            data=np.nan_to_num(free_energy),\n", "            data=np.nan_to_num(free_energy, posinf=50.0),\n"))
 M('c09_threshold_le', 'C09', (PA, "        if 0 <= Fi < max_energy_threshold:\n", "        if 0 < Fi < max_energy_threshold:\n"))
+# ---- C10 -------------------------------------------------------------------------------------
+M('c10_weight_neighbor_only', 'C10', (PA, "                weight = 0.5 * (data[node] + data[neighbor])\n", "                weight = data[neighbor]\n"))
+M('c10_no_periodic_wrap', 'C10', (PA, "            neighbor = tuple((node + move) % data.shape)\n", "            neighbor = tuple(node + move)\n"))
+M('c10_revert_F5', 'C10', (PA, "return [(x % xdim, y % ydim, z % zdim) for x, y, z in self.sites]", "return [(x % xdim, y % xdim, z % xdim) for x, y, z in self.sites]"))
+M('c10_percolate_all_axes', 'C10', (PA, "    image = F.dims * percolate_xyz\n", "    image = F.dims * percolate_xyz if percolate_xyz.sum() != 2 else F.dims * (1 - percolate_xyz)\n"))
+M('c10_dijkstra_unweighted', 'C10', (PA, "    else:\n        weight = 'weight'\n\n    if method in", "    else:\n        weight = None if method == 'bellman-ford' else 'weight'\n\n    if method in"))
+M('c10_no_threshold_test', 'C10,C09', (PA, "        if 0 <= Fi < max_energy_threshold:\n", "        if 0 <= Fi:\n"))
+M('c10_revert_F12', 'C10', (PA, "        except (nx.NetworkXNoPath, nx.NodeNotFound):\n", "        except nx.NetworkXNoPath:\n"))
+M('c10_first_peak_only', 'C10', (PA, "        if cost < best_cost:\n", "        if cost < best_cost and best_path is None:\n"))
+M('c10_exp_weight_uncapped', 'C10', (PA, "                    weight_exp = max_energy_threshold\n", "                    weight_exp = 1.0\n"))
+M('c10_energy_from_edge', 'C10', (PA, "    path_energy = [F_graph.nodes[node]['energy'] for node in optimal_path]\n    path = Pathway(sites=optimal_path, energy=path_energy)\n    return path\n", "    path_energy = [F_graph.nodes[node]['energy'] for node in optimal_path]\n    if len(path_energy) > 4:\n        path_energy[-1] = path_energy[-2]\n    path = Pathway(sites=optimal_path, energy=path_energy)\n    return path\n"))
+M('c10_tile_once', 'C10', (PA, "    F_data_periodic = np.tile(F.data, tuple(1 + percolate_xyz))\n", "    F_data_periodic = np.tile(F.data, tuple(1 + percolate_xyz * (np.arange(3) < 2)))\n"))
